@@ -192,7 +192,7 @@ class LockStep:
                         continue
                     self.stats['executions'] += 1
                     obs = self.observe_all(results, op[0])
-                    self.judge(h2, results, obs)
+                    diverged = self.judge(h2, results, obs, res0)
                     # successors in the DFS over answers
                     used_g = sum(1 for k in lm if asked[k][1] in 'gd')
                     used_s = sum(1 for k in lm if asked[k][1] == 'p')
@@ -208,7 +208,11 @@ class LockStep:
                             lm2[lab] = alt
                             stack.append(lm2)
                     k = tuple(r['canon'] for r in results)
-                    if k not in seen:
+                    if diverged:
+                        # once the peers disagree their descendants are not comparable any more: report the first divergence
+                        # of every path, do not expand it
+                        self.stats['pruned_after_divergence'] += 1
+                    elif k not in seen:
                         seen.add(k)
                         if self.faults or not any(r['ledger'] != '-' for r in results):
                             frontier.append((h2, results))
@@ -228,7 +232,7 @@ class LockStep:
         self.stats['states'] = len(seen)
         return self
 
-    def judge(self, hist, results, obs):
+    def judge(self, hist, results, obs, res0=None):
         ref = obs[0]
         bad = None
         for i in range(1, len(obs)):
@@ -244,14 +248,20 @@ class LockStep:
         if bad is None:
             if len(self.samples) < 3 and nontrivial:
                 self.samples.append({'history': [(o, e, dict(l)) for o, e, l in hist], 'peers': self.labels, 'trace': results[0]['raw']})
-            return
+            return False
         i, field = bad
         self.stats['divergent'] += 1
         self.findings.append({'kind': 'divergence:' + field, 'peers': (self.labels[0], self.labels[i]),
                               'history': [(o, e, dict(l)) for o, e, l in hist],
                               'msg': f'{self.labels[0]} and {self.labels[i]} differ in {field}: {obs[0][field]!r} vs {obs[i][field]!r}',
                               'raw': {self.labels[0]: results[0]['raw'], self.labels[i]: results[i]['raw']},
-                              'classes': self.classes(obs)})
+                              'classes': self.classes(obs),
+                              'pre_pending': [snapshot_fields(r['canon']).get('pending', []) for r in (res0 or [])],
+                              'pre_config': config_names(res0[0]['canon'], self.zs[0]) if res0 else (),
+                              'post_configs': [o['config'] for o in obs]})
+        # a difference in the raw state ids alone (names agree) leaves the peers comparable: keep exploring
+        behavioural = any(obs[j][fld] != ref[fld] for j in range(1, len(obs)) for fld in ref if fld != 'ids')
+        return behavioural
 
     def classes(self, obs):
         """partition of the peers into classes of equal observations"""
